@@ -1,17 +1,19 @@
 from .. import common
 
 MANIFEST = {
-    "text": "PARTIAL. Statement: for every byte string in the decidable domain SharedLexemesOnly (Model/ScanDomain.lean: no ILLEGAL token, no keyword, no "
-            "c\"/py\", no '**', no CR inside /*…*/ or # comments, no '#/' '#*') the models of the TPL scanner and of the XGo scanner return the same token "
-            "boundaries, kinds (by spelling), literals and inserted semicolons. Proved in Lean over the regenerated tables: C32_switch_agrees_by_spelling + "
-            "C32_switch_differences (the operator switches decide identically by spelling except TPL's '**' and '@'), C32_literal_kinds_same_name, "
-            "C32_exclusions_are_differences (each exclusion of the domain is a real difference: witnesses), C32_unit_offset_witness, C32_domain_examples. "
-            "The general agreement theorem is NOT proved; it is checked per run by the differential harness: both models are validated against the real "
-            "TPL and XGo scanners, the model's domain decision and agreement verdict are compared with those computed on the real scanners, and any "
-            "in-domain input on which the real scanners differ is a violation.",
-    "note": "errors are not part of C32 (the TPL scanner reports no line-directive errors); kinds are compared by Token.String(); the hand "
-            "transcription of both scanners is validated only differentially.",
-    "technique": "Lean 4 proof over regenerated tables (kernel evaluation) + witnesses + differential correspondence of two models with two real scanners + domain oracle",
+    "text": "FULL on a decidable domain. Lean 4 theorem C32_tpl_eq_xgo (and C32_agree): for EVERY byte string, every classification of non-ASCII "
+            "letters/digits and every scanning mode, if the source is in SharedLexemesOnly (Model/ScanDomain.lean, evaluated on the xgo model's own run: no "
+            "ILLEGAL token, no keyword, no c\"/py\", no '*' directly followed by '*', every comment free of CRs, not '#/' '#*', not continuing with 'line ' after two "
+            "bytes) then the models of the TPL scanner and of the XGo scanner return the same lexemes: same offsets and ends (token boundaries), same literals, "
+            "same kinds by String(), same inserted semicolons, both/neither EOF, and also the same error-handler calls; both runs finish. Proof: from the same "
+            "state one pass through Scan of the two dialects ends in the same state with related tokens (step32), the loops run in lockstep (lockstep32), on top "
+            "of C15's invariants; the operator switches are compared by spelling over the regenerated tables (C32_switch_agrees_by_spelling, switch32). "
+            "Witnesses that every exclusion is a real difference: C32_exclusions_are_differences, C32_line_directive_differs; C32_unit_offset_witness, "
+            "C32_domain_examples. Both models are tied to the real TPL and XGo scanners by the differential run, which also compares the model's domain "
+            "decision and agreement verdict with those computed on the real scanners; an in-domain input on which the real scanners differ is a violation.",
+    "note": "kinds are compared by Token.String(); the hand transcription of both scanners is validated only differentially; the domain excludes CRLF "
+            "line endings inside // comments (the agreement still holds there and is checked differentially, but is not covered by the theorem).",
+    "technique": "Lean 4 proof (two dialects of one executable model from a common state, lockstep induction) + regenerated tables + differential correspondence of two models with two real scanners + domain oracle",
 }
 
 RULE = ("per source, comments on and off (5%: NoInsertSemis): sequences of lexemes both scanners know (identifiers, numbers with unit/rat/imag suffixes, "
